@@ -2,10 +2,13 @@ package main
 
 import (
 	"fmt"
+	"go/token"
 	"os"
+	"runtime/debug"
 	"strings"
 
 	"github.com/quasilyte/go-ruleguard/ruleguard"
+	"github.com/quasilyte/go-ruleguard/ruleguard/ir"
 	"verifharness/hx"
 )
 
@@ -47,7 +50,7 @@ var c07VarFilters = []string{
 	`m["%s"].Type.ConvertibleTo("int")`, `m["%s"].Type.AssignableTo("interface{}")`, `m["%s"].Type.Implements("error")`,
 	`m["%s"].Type.HasMethod("io.Reader.Read")`, `m["%s"].Type.HasPointers()`,
 	`m["%s"].Type.OfKind("integer")`, `m["%s"].Type.OfKind("untyped")`, `m["%s"].Type.OfKind("int")`, `m["%s"].Type.OfKind("signed")`, `m["%s"].Type.Underlying().OfKind("numeric")`,
-	`m["%s"].Type.Size > 4`, `m["%s"].Type.Size == 8`, `m["%s"].Type.Comparable`, `m["%s"].Addressable`,
+	`m["%s"].Type.Size > 4`, `m["%s"].Type.Size == 8`, `m["%s"].Comparable`, `m["%s"].Addressable`,
 	`m["%s"].Const`, `m["%s"].ConstSlice`, `m["%s"].Value.Int() > 1`, `m["%s"].Value.Int() == 2`, `m["%s"].Pure`,
 	`m["%s"].Object.Is("Var")`, `m["%s"].Object.Is("Func")`, `m["%s"].Object.Is("TypeName")`, `m["%s"].Object.IsGlobal()`, `m["%s"].Object.IsVariadicParam()`,
 	`m["%s"].Node.Is("Ident")`, `m["%s"].Node.Is("CallExpr")`, `m["%s"].Node.Is("BasicLit")`,
@@ -218,6 +221,64 @@ func g(e error, i int32, a any, p *error) {
 }
 `
 
+// comment rules: MatchComment binds every named group of the regexp (and $$, the whole match) to a piece of
+// the comment; a group that took no part in the match is bound to an empty piece.  `pattern` is a regexp.
+var c07CommentShapes = []c07Shape{
+	{"comment:named-group", `//\s*(?P<x>\w+)`, false},
+	{"comment:two-groups", `(?P<x>\w+)[ :]+(?P<y>\w+)`, true},
+	{"comment:group-not-in-match", `(?P<x>TODO)|(?P<y>FIXME)`, true},
+	{"comment:optional-group", `nolint(?P<x>:\w+)?`, false},
+	{"comment:empty-group", `//(?P<x>\d*)(?P<y>\s*)`, true},
+	{"comment:whole-comment-group", `(?s)^(?P<x>.*)$`, false},
+	{"comment:no-groups", `TODO|FIXME|nolint`, false},
+	{"comment:unnamed-group-only", `(TODO)\((\w+)\)`, false},
+	{"comment:multi-line-group", `(?s)/\*(?P<x>.*?)\*/`, false},
+	{"comment:nested-groups", `(?P<x>(?P<y>\w)\w*)$`, true},
+	{"comment:empty-match", `(?P<x>)`, false},
+}
+
+var c07CommentRootShapes = map[string]bool{"comment:no-groups": true, "comment:unnamed-group-only": true, "comment:named-group": true, "comment:empty-match": true, "comment:multi-line-group": true}
+
+const c07CommentTarget = `// Package p is the comment target. TODO(owner): things
+package p
+
+import "fmt" // nolint:imports
+
+/* block comment
+   TODO second line
+   x y */
+
+// T is a type. FIXME later
+type T struct {
+	a int // field a: 10
+	b int /* inline */ // two: comments
+}
+
+//
+/**/
+//go:generate echo 42
+// 42 is a number, x + 1 is an expression, probe(x) a call
+var global = 10 // nolint
+
+// f does things.
+//
+// Deprecated: use g. TODO(user): remove
+func f(x int) int {
+	// x
+	if x > 0 { // nolint:gocritic // reason
+		/* TODO */ return x // trailing 7
+	}
+	fmt.Println(x) //   spaced   words   here
+	// юникод комментарий: текст
+	/*
+	 * starred
+	 * lines: 1
+	 */
+	return 0
+}
+
+// last comment without a newline: FIXME`
+
 var c07ShadowFilters = []string{
 	`m["x"].Type.Is("error")`, `m["x"].Type.Is("int32")`, `m["x"].Type.Is("any")`, `m["x"].Type.Is("*error")`, `m["x"].Type.Underlying().Is("string")`,
 	`m["x"].Type.Implements("error")`, `m["x"].Type.ConvertibleTo("error")`, `m["x"].Type.AssignableTo("error")`, `m["x"].Type.OfKind("integer")`,
@@ -227,7 +288,8 @@ var c07ShadowFilters = []string{
 func runC07(c *Ctx) error {
 	res := c.Res
 	res.Rule = "product space: every capture shape (expression, two expressions, $* expression list, statement, statement list, typed-nil *ast.FieldList, type expression, " +
-		"parameter name, field list, assignment sides, composite elements, selector base, call function, declaration list) x every documented Where() predicate over $x / ($x,$y) / $$ / file / Go version " +
+		"parameter name, field list, assignment sides, composite elements, selector base, call function, declaration list; comment-rule captures: MatchComment named groups that matched text, matched the empty string, " +
+		"took no part in the match, nested and multi-line groups, $$ of rules with and without groups, on line, block, doc, directive, empty and end-of-file comments) x every documented Where() predicate over $x / ($x,$y) / $$ / file / Go version " +
 		"x Report, Suggest and At() payloads x TruncateLen in {-1,0,1,3,5,60} x GoVersion unset/set x RunnerState nil/reused, through Engine.Load + Engine.Run under recover on a file covering " +
 		"typed and untyped operands in every syntactic position; Run must not panic and every report must have a non-nil node with positions inside the file, a non-nil group, a suggestion range inside the file. " +
 		"exhaustive over the enumerated cells; a cell is non-trivial when the rule loads and produces >= 1 match attempt (>= 1 report or a filter rejection); distinct by (shape, filter, context)"
@@ -246,10 +308,15 @@ func runC07(c *Ctx) error {
 		ctxs = ctxs[:3]
 	}
 	type cell struct {
-		shape  c07Shape
-		filter string
-		action string
-		shadow bool
+		shape   c07Shape
+		filter  string
+		action  string
+		shadow  bool
+		comment bool
+	}
+	tComment, err := hx.ParseTarget("c07comment.go", c07CommentTarget)
+	if err != nil {
+		return fmt.Errorf("comment target: %v", err)
 	}
 	tShadow, err := hx.ParseTarget("c07shadow.go", c07Shadow)
 	if err != nil {
@@ -288,27 +355,123 @@ func runC07(c *Ctx) error {
 			cells = append(cells, cell{shape: sh, filter: "", action: `Report("$y").At(m["y"]).Suggest("$y$x")`})
 		}
 	}
+	// comment-rule captures x every predicate the loader accepts for them (it only checks that the variable
+	// is a named group or $$): the same predicates, pair predicates, root / file / version predicates and payloads
+	for _, sh := range c07CommentShapes {
+		hasX := strings.Contains(sh.pattern, "?P<x>")
+		for _, f := range c07VarFilters {
+			n := strings.Count(f, "%s")
+			args := make([]interface{}, n)
+			for _, v := range []string{"x", "y", "$$"} {
+				if (v == "x" && !hasX) || (v == "y" && !sh.hasY) {
+					continue
+				}
+				if v == "$$" && !c07CommentRootShapes[sh.name] {
+					continue // $$ is the same kind of capture whatever the groups are
+				}
+				for i := range args {
+					args[i] = v
+				}
+				act := `Report("$` + v + `|$$")`
+				if v == "$$" {
+					act = `Report("$$")`
+				}
+				cells = append(cells, cell{shape: sh, filter: fmt.Sprintf(f, args...), action: act, comment: true})
+			}
+		}
+		if sh.hasY {
+			for _, f := range c07PairFilters {
+				cells = append(cells, cell{shape: sh, filter: f, action: `Report("$x $y")`, comment: true})
+			}
+		}
+		if hasX {
+			for _, f := range c07PairFilters {
+				cells = append(cells, cell{shape: sh, filter: strings.ReplaceAll(f, `m["y"]`, `m["$$"]`), action: `Report("$x")`, comment: true})
+			}
+		}
+		for _, f := range c07RootFilters {
+			cells = append(cells, cell{shape: sh, filter: f, action: `Report("$$")`, comment: true})
+		}
+		cells = append(cells, cell{shape: sh, filter: "", action: `Report("c $$")`, comment: true})
+		cells = append(cells, cell{shape: sh, filter: "", action: `Suggest("$$")`, comment: true})
+		cells = append(cells, cell{shape: sh, filter: "", action: `Report("r").Suggest("")`, comment: true})
+		if hasX {
+			cells = append(cells, cell{shape: sh, filter: "", action: `Report("$x").At(m["x"])`, comment: true})
+			cells = append(cells, cell{shape: sh, filter: "", action: `Report("r $x").Suggest("$x")`, comment: true})
+			cells = append(cells, cell{shape: sh, filter: "", action: `Report("r").At(m["x"]).Suggest("s($x)")`, comment: true})
+		}
+		if sh.hasY {
+			cells = append(cells, cell{shape: sh, filter: "", action: `Report("$y").At(m["y"]).Suggest("$y$x")`, comment: true})
+		}
+	}
 	for _, f := range c07ShadowFilters {
 		cells = append(cells, cell{shape: c07Shapes[0], filter: f, action: `Report("$x")`, shadow: true})
 	}
 	for _, f := range c07PairFilters {
 		cells = append(cells, cell{shape: c07Shapes[1], filter: f, action: `Report("$x $y")`, shadow: true})
 	}
+	ruleText := func(cl cell) string {
+		rule := "\tm.Match(`" + cl.shape.pattern + "`)"
+		if cl.comment {
+			rule = "\tm.MatchComment(`" + cl.shape.pattern + "`)"
+		}
+		if cl.filter != "" {
+			rule += ".Where(" + cl.filter + ")"
+		}
+		return rule + "." + cl.action
+	}
+	header := "package gorules\n\nimport (\n\t\"github.com/quasilyte/go-ruleguard/dsl\"\n\t\"github.com/quasilyte/go-ruleguard/dsl/types\"\n)\n\nvar _ = types.Identical\n" + c07Custom + "\n"
+	// the comment-rule cells are converted to IR in one batch and loaded with LoadFromIR (one group per engine; every
+	// 7th cell goes through Engine.Load like the syntax-rule cells): a Load costs ~25 ms, almost all of it type-checking
+	var batch strings.Builder
+	for i, cl := range cells {
+		if cl.comment {
+			fmt.Fprintf(&batch, "func c%d(m dsl.Matcher) {\n%s\n}\n", i, ruleText(cl))
+		}
+	}
+	irGroups := map[string]ir.RuleGroup{}
+	irf, irErr := c17ConvertIR(header + batch.String())
+	if irErr != nil {
+		res.Notes = append(res.Notes, "comment-rule cells: irconv of the batch failed, every cell loaded with Engine.Load: "+clip(irErr.Error()))
+	} else {
+		for _, g := range irf.RuleGroups {
+			irGroups[g.Name] = g
+		}
+	}
 	for i, cl := range cells {
 		t := t
 		if cl.shadow {
 			t = tShadow
 		}
-		rule := "\tm.Match(`" + cl.shape.pattern + "`)"
-		if cl.filter != "" {
-			rule += ".Where(" + cl.filter + ")"
+		if cl.comment {
+			t = tComment
 		}
-		rule += "." + cl.action
-		src := hx.RulesFile("import \"github.com/quasilyte/go-ruleguard/dsl/types\"\n\nvar _ = types.Identical\n" + c07Custom + "\nfunc r(m dsl.Matcher) {\n" + rule + "\n}\n")
-		// dsl/types import must come with the other import: rewrite header
-		src = strings.Replace(src, "import \"github.com/quasilyte/go-ruleguard/dsl\"\n\nimport \"github.com/quasilyte/go-ruleguard/dsl/types\"", "import (\n\t\"github.com/quasilyte/go-ruleguard/dsl\"\n\t\"github.com/quasilyte/go-ruleguard/dsl/types\"\n)", 1)
+		src := header + "func r(m dsl.Matcher) {\n" + ruleText(cl) + "\n}\n"
+		if cl.comment {
+			res.Dist("cells:comment-rule")
+			res.Dist("cells:" + cl.shape.name)
+		} else {
+			res.Dist("cells:syntax-rule")
+		}
 		e := ruleguard.NewEngine()
-		lerr := hx.LoadInto(e, "rules.go", src, nil)
+		var lerr error
+		if g, ok := irGroups[fmt.Sprintf("c%d", i)]; ok && cl.comment && i%7 != 0 {
+			f := &ir.File{PkgPath: irf.PkgPath, RuleGroups: []ir.RuleGroup{g}, BundleImports: irf.BundleImports}
+			if strings.Contains(cl.filter, ".Filter(") {
+				f.CustomDecls = irf.CustomDecls
+			}
+			lerr = func() (err error) {
+				defer func() {
+					if r := recover(); r != nil {
+						err = fmt.Errorf("PANIC %s at %s: %v", hx.PanicKind(r), hx.Frame(debug.Stack()), r)
+					}
+				}()
+				return e.LoadFromIR(&ruleguard.LoadContext{Fset: token.NewFileSet()}, "rules.go", f)
+			}()
+			res.Dist("cells:loaded-from-IR")
+		} else {
+			lerr = hx.LoadInto(e, "rules.go", src, nil)
+		}
 		in := map[string]interface{}{"shape": cl.shape.name, "pattern": cl.shape.pattern, "filter": cl.filter, "action": cl.action, "shadowed_predeclared_target": cl.shadow}
 		if lerr != nil {
 			if strings.HasPrefix(lerr.Error(), "PANIC") {
@@ -317,6 +480,12 @@ func runC07(c *Ctx) error {
 			}
 			res.Count("cells", fmt.Sprint(i), false)
 			res.Dist("cell:load-error")
+			if cl.comment {
+				res.Dist("cell:load-error:comment-rule")
+				if os.Getenv("VERIF_C07_ALL") != "" {
+					fmt.Fprintf(os.Stderr, "LOADERR\t%s\t%s\t%s\t%v\n", cl.shape.name, cl.filter, cl.action, lerr)
+				}
+			}
 			continue
 		}
 		var state *ruleguard.RunnerState
